@@ -51,6 +51,10 @@ V_rfa_shape(e) ==
     \* a sample that is not a finite number is not between the neighbouring averages (window strategies)
     IF e.outcome = "ok" /\ Len(e.outy) = (RfM(e) - 1) * e.n + 1 /\ ~AllFinite(e.outy) /\ e.strategy \in WindowStrategies
     THEN {"C05.bounds"}
+    \* a strategy that raises on an admissible series neither "reproduces each average" nor "passes through every original point"
+    \* (seed C05i: a spline supplier that needs four points; the events of this family are all admissible requests, cf. C04.outcome)
+    ELSE IF e.outcome # "ok" /\ e.strategy = "CubicSpline" THEN {"C05.spline_nodes"}
+    ELSE IF e.outcome # "ok" /\ e.strategy = "PiecewiseConstant" THEN {"C05.piecewise_exact"}
     ELSE IF ~ShapeApplies(e) THEN {}
     ELSE IF e.strategy \in WindowStrategies
     THEN Fail(\E k \in 0..(RfM(e) - 2) : ~PlateauOK(e, k), "C05.plateau") \cup
